@@ -486,6 +486,9 @@ func (ma *modAnalysis) commonMods(common *ssa.CallCommon) ModSet {
 		if cm.opaque && !ma.readOnlyCallee(sc) && isSortPkgFunc(sc) {
 			// package sort writes only the elements of the slice it is given (directly, or through
 			// the Swap method, which callbackMods has accounted for)
+			if sc.Name() == "Slice" || sc.Name() == "SliceStable" {
+				ms.add("G$GsortOrigin", ModAny)
+			}
 			for _, a := range common.Args {
 				if mi, ok := a.(*ssa.MakeInterface); ok {
 					if sl, ok := mi.X.Type().Underlying().(*types.Slice); ok {
